@@ -170,7 +170,14 @@ func TestC05(t *testing.T) {
 			}
 			ev.Violation(k, desc, rp)
 		}
-		// the order of events: no write after close
+		// the order of events: no write after close; once the reply is out the server hangs up and
+		// does not wait for a client that keeps its side open
+		for _, e := range conn.events {
+			if e == "WAIT-FOR-CLIENT-AFTER-REPLY" {
+				ev.Violation("waits-for-client-after-reply", desc+fmt.Sprintf(": the server reads from a silent client after having replied instead of closing: %v", conn.events), rp)
+				break
+			}
+		}
 		for i, e := range conn.events {
 			if e == "CLOSE" && i != len(conn.events)-1 {
 				ev.Violation("activity-after-close", desc+fmt.Sprintf(": %v", conn.events), rp)
